@@ -38,6 +38,7 @@ def main():
         if case.get("quit"):
             break
         res = harness.Result()
+        harness.DEFAULT_GRAN[0] = case.get("gran_default", "line")
         t1 = time.time()
         c0 = instr.counters()
         try:
